@@ -358,6 +358,13 @@ def gen(rng, tier):
     cs += byte_mutations(rng, tier)
     cs += randoms(rng, tier)
     cs += exhaustive_small(tier)
+    # the connection task as a whole (handle_http_conn over loop-back): every documented outcome is answered with its
+    # status, with no logger installed (n) and with a stopped global logger installed (s)
+    for lg in ("n", "s"):
+        for msg in (b"GET / HTTP/1.1\r\n\r\n", b"GET / HTTP/1.0\r\n\r\n", b"BAD\x01 / HTTP/1.1\r\n\r\n", b"GET /\r\n\r\n",
+                    b"GET / HTTP/1.1\r\nx\r\n\r\n", b"GET / HTTP/1.1\r\nx: \x01\r\n\r\n", b"GET / HTTP/1.1\r\nx: y", b"",
+                    b"GET / HTTP/1.1\r\nx: " + b"v" * 9000 + b"\r\n\r\n", b"\r\n\r\n", b"GET /%zz HTTP/1.1\r\n\r\n"):
+            cs.append("task %s %s" % (lg, x(msg)))
     # a byte >= 0x80 at every offset of a long field value (the error path formats the offending text: a cut at a
     # fixed length must not land inside a character), also as part of a well-formed UTF-8 sequence
     for off in list(range(0, 40, 7)) + list(range(60, 140)) + [255, 256, 999, 1000, 1023, 1024]:
